@@ -71,7 +71,7 @@ var StageCounters = map[string][]string{
 	"C09": {"twin_pairs_through_a_recycled_buffer", "definition_moves_with_near_miss_labels_defined_in_D", "definition_moves_with_many_own_definitions"},
 	"C10": {"recycled_buffer_steps", "decorated_trees"},
 	"C11": {"ascii_documents_compared_after_their_wide_character_twin", "conversions_by_neighbour_instances_sharing_extension_values", "line_ending_documents", "wide_character_documents_on_a_cjk_base"},
-	"C14": {"histories", "history_nested_renders", "history_conversions_ending_with_node_renderer_error", "history_conversions_with_node_renderer_error_and_failing_writer"},
+	"C14": {"histories", "history_nested_renders", "history_conversions_ending_with_node_renderer_error", "history_conversions_with_node_renderer_error_and_failing_writer", "subtrees_rendered_with_fault_enumeration"},
 	"C15": {"documents_with_ids_of_a_chosen_length", "documents_with_many_headings"},
 	"C16": {"context_histories", "documents_parsed_with_a_reused_context"},
 	"C18": {"calls_Reset", "long_source_cases"},
